@@ -8,6 +8,9 @@ import (
 	"bufio"
 	"bytes"
 	"fmt"
+	"go/ast"
+	"go/parser"
+	"go/token"
 	"os"
 	"os/exec"
 	"path/filepath"
@@ -19,6 +22,59 @@ import (
 	"github.com/jmattheis/goverter/config"
 	"github.com/jmattheis/goverter/generator"
 )
+
+// fileFacts: what a parsed emitted file contains
+type fileFacts struct {
+	Imports  []string
+	Funcs    []string // method / function names
+	BadDecls []string // top-level declarations other than import, the empty converter struct, funcs and init
+	ParseErr string
+	Receivers map[string]bool
+}
+
+func inspectGo(src []byte, implName string) fileFacts {
+	var ff fileFacts
+	ff.Receivers = map[string]bool{}
+	fset := token.NewFileSet()
+	f, err := parser.ParseFile(fset, "gen.go", src, parser.ParseComments)
+	if err != nil {
+		ff.ParseErr = err.Error()
+		return ff
+	}
+	for _, im := range f.Imports {
+		ff.Imports = append(ff.Imports, strings.Trim(im.Path.Value, "\""))
+	}
+	for _, d := range f.Decls {
+		switch v := d.(type) {
+		case *ast.FuncDecl:
+			ff.Funcs = append(ff.Funcs, v.Name.Name)
+			if v.Recv != nil && len(v.Recv.List) == 1 {
+				if st, ok := v.Recv.List[0].Type.(*ast.StarExpr); ok {
+					if id, ok := st.X.(*ast.Ident); ok {
+						ff.Receivers[id.Name] = true
+					}
+				}
+			}
+		case *ast.GenDecl:
+			switch v.Tok {
+			case token.IMPORT:
+			case token.TYPE:
+				for _, sp := range v.Specs {
+					ts := sp.(*ast.TypeSpec)
+					st, ok := ts.Type.(*ast.StructType)
+					if !ok || st.Fields == nil || len(st.Fields.List) != 0 || ts.Name.Name != implName {
+						ff.BadDecls = append(ff.BadDecls, "type "+ts.Name.Name)
+					}
+				}
+			default:
+				ff.BadDecls = append(ff.BadDecls, v.Tok.String()+" declaration")
+			}
+		}
+	}
+	sort.Strings(ff.Imports)
+	sort.Strings(ff.Funcs)
+	return ff
+}
 
 type convOutcome struct {
 	OK     bool
@@ -456,7 +512,7 @@ func writeDriver(root string, p *Program, cases []*runCase, race bool) {
 	var sb strings.Builder
 	sb.WriteString("package main\n\nimport (\n\t\"bufio\"\n\t\"fmt\"\n\t\"os\"\n\t\"reflect\"\n\t\"sort\"\n\t\"strings\"\n")
 	text := body.String()
-	if regexp.MustCompile(`\bp\.`).MatchString(text) {
+	if regexp.MustCompile(`\bp\.`).MatchString(text) || len(cases) > 0 {
 		fmt.Fprintf(&sb, "\tp %q\n", pkgPaths[1])
 	}
 	if regexp.MustCompile(`\bq\.`).MatchString(text) {
@@ -466,6 +522,18 @@ func writeDriver(root string, p *Program, cases []*runCase, race bool) {
 		fmt.Fprintf(&sb, "\tgenerated %q\n", pkgPaths[3])
 	}
 	sb.WriteString(")\n\nvar _ = sort.Ints\nvar _ = strings.Join\n")
+	seenConv := map[string]bool{}
+	for _, rc := range cases { // the emitted struct implements the declared interface
+		if seenConv[rc.Conv] {
+			continue
+		}
+		seenConv[rc.Conv] = true
+		pkg := "generated"
+		if rc.SamePk {
+			pkg = "p"
+		}
+		fmt.Fprintf(&sb, "var _ p.%s = &%s.%sImpl{}\n", rc.Conv, pkg, rc.Conv)
+	}
 	sb.WriteString(driverPrelude)
 	sb.WriteString(text)
 	sb.WriteString("func main() {\n\tw := bufio.NewWriter(os.Stdout)\n\tdefer w.Flush()\n" + strings.Join(calls, "\n") + "\n}\n")
